@@ -217,6 +217,7 @@ def gen_byte_noise(rng, n):
              b'int \xc3\xa9\xcc\x81 = 1;\n', b'int x\xff;\n', b'int \xe2\x82 = 1;\n', b'L"\xff"', b'u"\xc3"', b"'\xe2\x82'", b'U"\xf0\x9f\x98\x80"',
              b'"' + b'a' * 100000 + b'"', b'int ' + b'x' * 100000 + b';\n', b'1' * 100000, b'/*' + b'*' * 100000, b'"' + b'\\' * 99999,
              b'int x = ' + b'9' * 5000 + b';\n', b'double d = 1e' + b'9' * 5000 + b';\n', b'double d = 0.' + b'1' * 50000 + b';\n',
+             b"\\u000a\\u000a'", b'int x;\\u000a#error boo\n', b'char *s = "\xff"; int x = ;\n', b'/* \xff */ int x = ;\n',
              b'int x = 0x' + b'f' * 5000 + b';\n', b'char *s = "' + b'\\x' + b'f' * 5000 + b'";\n', b"int c = '\\7777777';\n"]
     for f in fixed:
         out.append({'gen': 'byte-noise', 'family': 'byte-noise', 'data': f, 'opts': [], 'textual': False})
@@ -511,6 +512,9 @@ def gen_pp_stress(rng, n):
     add('E-mode-unclosed', b'"abc\n', opts=['-E'])
     add('M-mode', b'#include <stddef.h>\n#include "a.h"\n', {'a.h': b'int a;\n'}, opts=['-M'])
     add('MD-mode', b'#include "a.h"\nint main(){return 0;}\n', {'a.h': b'int a;\n'}, opts=['-MD', '-MF', '@DIR@/dep.d', '-MP', '-MT', 'x y'])
+    add('diag-nonutf8-line-include', b'#include "h.h"\nchar *s = "\xff"; int x = ;\n', {'h.h': b'int h;\n'})
+    add('diag-nonutf8-line-macro', b'#define L __LINE__\nint y = L;\nchar *s = "\xff"; int x = ;\n')
+    add('diag-nonutf8-line-comment', b'#define S(x) #x\nchar *t = S(a);\n/* \xe2\x82 */ int x = ;\n')
     add('fpic', b'extern int e; static int s; int g; int f(void); int main() { return e + s + g + f() + (long)&e + (long)f; }\n', opts=['-fpic'])
     add('fcommon', b'int g; int h[3]; _Thread_local int t;\n', opts=['-fcommon'])
     add('idirafter', b'#include <z.h>\nint q = Z;\n', {'inc/z.h': b'#define Z 1\n'}, opts=['-idirafter', '@DIR@/inc'])
